@@ -180,6 +180,28 @@ struct FindPrototypeByArgs : public FindPrototypeByArgsFromIndex <0, PrototypeLi
 {
 };
 
+// The list without its first N types
+template <int N, typename List>
+struct DropHeterTuple;
+
+template <int N, typename T, typename ...Types>
+struct DropHeterTuple <N, HeterTuple<T, Types...> >
+{
+	using Type = typename DropHeterTuple<N - 1, HeterTuple<Types...> >::Type;
+};
+
+template <typename T, typename ...Types>
+struct DropHeterTuple <0, HeterTuple<T, Types...> >
+{
+	using Type = HeterTuple<T, Types...>;
+};
+
+template <int N>
+struct DropHeterTuple <N, HeterTuple<> >
+{
+	using Type = HeterTuple<>;
+};
+
 template <int I, int N, typename PrototypeList_>
 struct FindPrototypeByIndexHelper;
 
